@@ -16,8 +16,13 @@ def search(ctx, focus=(), deep=1):
         if d.name == 'Universal':
             continue
         plist = [f['witness']['input']['params'] for f in known if f.get('site') == d.name and isinstance(f.get('witness', {}).get('input'), dict) and 'params' in f['witness']['input']]
+        plist += protos.corner_params(d)
         for _ in range((2 if not ctx.thorough else 12) * (8 if d.name in focus else 1) * deep):
             plist.append(protos.sample_params(d, r))
+        if (d.name in focus or ctx.thorough) and protos.space_size(d) <= 4096:
+            plist += list(protos.all_params(d))          # the whole key space of a small (or changed) protocol
+        seen_p = set()
+        plist = [p for p in plist if not (tuple(sorted(p.items())) in seen_p or seen_p.add(tuple(sorted(p.items()))))]
         for p in plist:
             names = list(p)
             want = ('ok', tuple(sorted(p.items())))
